@@ -459,9 +459,12 @@ func (s *clientSocket) emitBuffered() {
 
 		hasAckFunc := s.callEvent(event.handler, event.header, event.values, sendAck)
 
-		if event.header.ID != nil {
+		// If the handler has an acknowledgement function, the acknowledgement is
+		// up to the handler: it can call the function after it returns (`sendAck`
+		// makes sure that at most one acknowledgement is sent), so the ID
+		// must not be marked as sent here.
+		if event.header.ID != nil && !hasAckFunc {
 			mu.Lock()
-			send := !hasAckFunc
 			sent, ok := ackIDs[*event.header.ID]
 			if ok && sent {
 				mu.Unlock()
@@ -473,10 +476,8 @@ func (s *clientSocket) emitBuffered() {
 			// If there is no acknowledgement function
 			// and there is no response already sent,
 			// then send an empty acknowledgement.
-			if send {
-				s.debug.Log("Sending ack with ID", *event.header.ID)
-				s.sendAckPacket(*event.header.ID, nil)
-			}
+			s.debug.Log("Sending ack with ID", *event.header.ID)
+			s.sendAckPacket(*event.header.ID, nil)
 		}
 	}
 	s.receiveBuffer = nil
